@@ -12,10 +12,10 @@ def classify(case_line):
 CFG = dict(
     imports=["From Verif.Common Require Import Labels.", "From Verif.C06 Require Import Model Spec."],
     checker="check_case",
-    n=dict(quick=520, thorough=20000),
+    n=dict(quick=600, thorough=20000),
     shard=65,
     classify=classify,
-    rule="45 fixed boundary expressions, then grammar-directed selector expressions (all operators incl. both spellings of "
+    rule="45 fixed boundary expressions, ~95 deep/long boundary expressions (parenthesis depth 15..40, 63..66, 100, 200 in shapes where String() adds parentheses, redundant parentheses, nested and long runs of negations, and/or chains of 50..300 operands, labels/values of 511..1024 bytes, 120-element sets), then 8% random deep expressions (depth 15..40) and grammar-directed selector expressions (all operators incl. both spellings of "
          "'not in'/'starts with'/'ends with', nesting <= 6, both quote styles, blank/tab noise, trailing commas, empty and duplicate "
          "set elements, labels named like keywords, non-ASCII bytes, 512/513-byte labels), 25% of them mutated by 1-3 byte edits "
          "(malformed stream) and ~9% random token soup; 8 label maps per case drawn from the labels/values the expression mentions; non-trivial = accepted, "
